@@ -91,13 +91,11 @@ def run(ctx, rep):
         if o.rule == "R08.3" and "unknown message kinds" in o.key:
             rep.ob("R07.1", o.key, o.ok, o.msg, o.loc, o.witness, kind="site")
     rep.floor("R07.1", "peer-data statements covered by the replying try", n, 3)
-    fu = ctx.func(K.CONN + "._unbox")
-    gu = ctx.cfg(fu, raises="default")
-    # falling off the label dispatch must raise
-    last = fu.node.body[-1]
-    okl = isinstance(last, ast.Raise)
-    rep.ob("R07.1", "_unbox: unknown labels raise", okl, "the label dispatch ends in `raise`" if okl else
-           "_unbox returns None for an unknown boxing label", ctx.loc(last), kind="site")
+    um = K.unbox_model(ctx)
+    fu, gu = um.f, um.g
+    okl = not um.returns("<other>") and bool(um.raises("<other>"))
+    rep.ob("R07.1", "_unbox: unknown labels raise", okl, "for a label outside the four published ones only a raise is reachable"
+           if okl else "_unbox returns normally for an unknown boxing label", fu.loc)
 
     # ------------------------------------------------------------------ R07.2
     init = ctx.func(K.CONN + ".__init__")
@@ -140,17 +138,12 @@ def run(ctx, rep):
            if not backdoors else "; ".join("%s at %s" % (d, ctx.loc(c)) for c, d in backdoors),
            ctx.loc(backdoors[0][0]) if backdoors else ctx.func(K.CONN + "._dispatch").loc, kind="site")
     # LOCAL_REF resolves through the per-connection table only
-    LREF = ctx.const("rpyc.core.consts", "LABEL_LOCAL_REF")
-    dom = Q.dominators(gu)
     okref = False
-    for nn in gu.live:
-        if nn.kind == "stmt" and isinstance(nn.ast, ast.Return):
-            conds = Q.dominating_conditions(gu, nn, dom)
-            for t, pol in conds:
-                if pol and isinstance(t.ast, ast.Compare) and ctx.try_fold(t.ast.comparators[0]) == LREF \
-                        and isinstance(t.ast.ops[0], ast.Eq):
-                    v = nn.ast.value
-                    okref = isinstance(v, ast.Subscript) and K.self_attr(v.value, "_local_objects") is not None
+    rl = um.returns("LABEL_LOCAL_REF")
+    if len(rl) == 1:
+        v = rl[0].ast.value
+        okref = isinstance(v, ast.Subscript) and K.self_attr(v.value, "_local_objects") is not None and \
+            A.src(v.slice) == um.names[1]
     rep.ob("R07.2", "_unbox: a local-reference label resolves only through this connection's own object table", okref,
            "returns self._local_objects[value]" if okref else
            "a LABEL_LOCAL_REF is not resolved by a plain lookup in self._local_objects", fu.loc)
